@@ -442,8 +442,9 @@ def wrap(x, signed, n_word):
 
     m = (1 << n_word)
     x = np.asarray(x)
-    if n_word >= _n_word_max or x.dtype == object:
-        # Python integers: wide words, and values that do not fit in int64
+    if n_word >= _n_word_max or x.dtype == object or \
+        (np.issubdtype(x.dtype, np.floating) and x.size > 0 and np.all(np.isfinite(x)) and np.max(np.abs(x)) >= 2**63):
+        # Python integers: wide words, and values that do not fit in int64 (a float beyond 2**63 has no defined int64 cast)
         dtype = object
         x = np.array(list(map(int, x.flatten())), dtype=dtype).reshape(x.shape) & (m - 1)
     else:
